@@ -9,6 +9,7 @@ and value, the check dominating the emission; urlize escapes its input first and
 attribute values; filters that combine a safe string with plain-string arguments (replace,
 join, indent, format) escape the plain side; xmlattr / urlize return Markup only under
 autoescape.  Not decided: well-formedness of urlize's anchors over all inputs.
+Also: truth table of do_replace's escape decision over the three __html__ probes.
 """
 
 from __future__ import annotations
